@@ -21,6 +21,7 @@ import Oryx.Proofs.Errors
 import Oryx.Proofs.IoFault.Boundary
 import Oryx.Proofs.IoFault.FlvWrite
 import Oryx.Props.C09
+import Oryx.Model.Expect
 namespace Oryx.Props.C08
 open Oryx Oryx.Errors Oryx.IoFault Oryx.Rtmp
 
@@ -181,6 +182,48 @@ theorem expect_cut (c : Nat) (hc : 1 ≤ c) (m : Msg) (hm : m.WF) (st : Reader) 
       (t = 0 → e.cause = .root 0 ∨ e.cause = .root 1) ∧ (t ≠ 0 → e.cause = .root t) := by
   obtain ⟨e, he, hce⟩ := message_cut c hc m hm st hic hcl W hw t k hk
   exact ⟨e, SP.withMessage_err he, fun h0 => (h0 ▸ hce).cut, fun hne => hce.inject hne⟩
+
+section
+open Oryx.Model.Expect
+/-- the library's loop under the fact the translator reads from rtmp.go on every run -/
+def libExpect {ε α : Type} := @expectLoop ε α Oryx.Gen.Rtmp.expectReturnsFirstError
+
+/-- gate: in ExpectPacket and ExpectMessage the branch for a failed `ReadMessage` returns at once -/
+theorem expect_fact : Oryx.Gen.Rtmp.expectReturnsFirstError = true := by decide
+
+/-- **A failed read ends `ExpectMessage` / `ExpectPacket` with that failure**, whatever the error says about itself
+(temporary, timeout) and whatever the transport would deliver afterwards: for every sequence of read results in which
+the reads before the first failure delivered only messages the caller does not wait for. -/
+theorem expect_first_error {ε α : Type} (want : α → Bool) (pre : List α) (e : ε) (post : List (Except ε α))
+    (hpre : ∀ m ∈ pre, want m = false) :
+    libExpect want (pre.map .ok ++ .error e :: post) = .failed e := by
+  unfold libExpect; rw [expect_fact]
+  induction pre with
+  | nil => simp [expectLoop]
+  | cons m pre ih =>
+    have hm := hpre m (List.mem_cons_self ..)
+    simp [expectLoop, hm, ih (fun x hx => hpre x (List.mem_cons_of_mem _ hx))]
+
+/-- ... and the first awaited message is returned when no read before it failed. -/
+theorem expect_first_wanted {ε α : Type} (want : α → Bool) (pre : List α) (m : α) (post : List (Except ε α))
+    (hpre : ∀ x ∈ pre, want x = false) (hm : want m = true) :
+    libExpect want (pre.map .ok ++ .ok m :: post) = (.got m : Out ε α) := by
+  unfold libExpect; rw [expect_fact]
+  induction pre with
+  | nil => simp [expectLoop, hm]
+  | cons x pre ih =>
+    have hx := hpre x (List.mem_cons_self ..)
+    simp [expectLoop, hx, ih (fun y hy => hpre y (List.mem_cons_of_mem _ hy))]
+
+/-- the retrying variant swallows the failure of the transport: the operation in progress returns no error -/
+theorem expect_retry_variant_swallows :
+    expectLoop false (fun _ => true) [(.error 1 : Except Nat Nat), .ok 2] = .got 2 ∧
+    expectLoop true (fun _ => true) [(.error 1 : Except Nat Nat), .ok 2] = .failed 1 := by decide
+
+/-- non-vacuity: two skipped messages, a failure, more results -/
+example : libExpect (fun (m : Nat) => m == 9) ([1, 2].map .ok ++ (.error "timeout" : Except String Nat) :: [.ok 9]) = .failed "timeout" := by
+  decide
+end
 
 /-- The same fact in the class-only model C01 is stated about: `readMessage` on a strict prefix of a written
 message is `err eof` or `err ueof` — not `ok`, not another error, not a panic. -/
